@@ -226,6 +226,30 @@ func makeReader(kind string, text []byte) (io.Reader, bool /*fails*/, bool /*ok*
 		return iotest.HalfReader(bytes.NewReader(text)), false, true
 	case kind == "dataerr":
 		return iotest.DataErrReader(bytes.NewReader(text)), false, true
+	case kind == "zero-reads": // (0, nil) between the data, which the io.Reader contract allows
+		return &zeroReads{r: bytes.NewReader(text)}, false, true
+	case kind == "plain": // nothing but Read: no WriteTo, Seek, Len or ReadAt to short-cut through
+		return struct{ io.Reader }{bytes.NewReader(text)}, false, true
+	case kind == "multi": // three pieces behind io.MultiReader (a short read at each seam)
+		a, b := len(text)/3, 2*len(text)/3
+		return io.MultiReader(bytes.NewReader(text[:a]), strings.NewReader(string(text[a:b])), struct{ io.Reader }{bytes.NewReader(text[b:])}), false, true
+	case kind == "limited": // more bytes behind an io.LimitReader than the template has
+		return io.LimitReader(bytes.NewReader(append(append([]byte(nil), text...), "{{.Nope}} beyond the limit"...)), int64(len(text))), false, true
+	case kind == "pipe": // an io.Pipe fed in 7-byte writes by another goroutine
+		pr, pw := io.Pipe()
+		go func() {
+			for i := 0; i < len(text); i += 7 {
+				j := i + 7
+				if j > len(text) {
+					j = len(text)
+				}
+				if _, err := pw.Write(text[i:j]); err != nil {
+					return
+				}
+			}
+			pw.Close()
+		}()
+		return pr, false, true
 	case strings.HasPrefix(kind, "fail:"): // fail:<k>[:<error name>[:with-data]]
 		parts := strings.Split(kind[5:], ":")
 		k, err := strconv.Atoi(parts[0])
@@ -401,7 +425,21 @@ func tplClass(c tplCase) (string, bool) {
 	return "tpl:valid", hasAction
 }
 
-var readerKinds = []string{"string", "string", "string", "reader", "reader", "onebyte", "half", "dataerr", "fail", "fail", "nil", "consumed-strings", "consumed-bytes", "consumed-section", "consumed-buffer", "consumed-bufio"}
+// zeroReads returns (0, nil) on every other call.
+type zeroReads struct {
+	r io.Reader
+	n int
+}
+
+func (z *zeroReads) Read(p []byte) (int, error) {
+	z.n++
+	if z.n%2 == 1 {
+		return 0, nil
+	}
+	return z.r.Read(p)
+}
+
+var readerKinds = []string{"string", "string", "string", "reader", "reader", "onebyte", "half", "dataerr", "fail", "fail", "nil", "consumed-strings", "consumed-bytes", "consumed-section", "consumed-buffer", "consumed-bufio", "zero-reads", "plain", "multi", "limited", "pipe"}
 
 func TestC19(t *testing.T) {
 	c := begin(t, "C19")
